@@ -318,7 +318,7 @@ impl Property for C09 {
         true
     }
     fn random_cases(&self, tier: Tier) -> u64 {
-        tier.pick(40_000, 2_000_000)
+        tier.pick(200_000, 4_000_000)
     }
     fn max_tape(&self) -> usize {
         24
